@@ -1,6 +1,7 @@
 //! lv-gen: shared generators and independent reference implementations.
 pub mod chain;
 pub mod mutate;
+pub mod ranges;
 pub mod refs;
 pub mod square;
 
